@@ -42,6 +42,8 @@ def interchange_problem(d, allow_array, depth=0):
     if isinstance(d, enum.Enum):
         return f"enum member {d!r} (an instance of {type(d).__mro__[1].__name__} through its mix-in, but not an interchange scalar)"
     if isinstance(d, _SCALARS):
+        if type(d) not in _SCALARS:
+            return f"{type(d).__name__} instance {d!r}: a subclass of an interchange scalar, not the scalar itself (yaml.safe_dump refuses it)"
         return None
     if isinstance(d, collections.abc.Mapping):
         for k, x in d.items():
